@@ -47,19 +47,27 @@ Qed.
 
 (* ------------------------------------------------------------------ front end *)
 
+Lemma NoDup_snoc {A} (l : list A) x : NoDup l -> ~ In x l -> NoDup (l ++ [x]).
+Proof.
+  induction l as [|y l IH]; intros Hnd Hx; cbn [app]; [constructor; [intros [] | constructor]|].
+  inversion Hnd as [|? ? Hy Hnd']; subst. constructor.
+  - intros Hin. apply in_app_or in Hin. destruct Hin as [Hin | [E | []]]; [contradiction | apply Hx; left; symmetry; exact E].
+  - apply IH; [exact Hnd' | intros Hin; apply Hx; right; exact Hin].
+Qed.
+
 Lemma BInv_create_batch s user bp token member : BInv s -> BInv (fst (do_create_batch s user bp token member)).
 Proof.
   intros H. unfold do_create_batch. peel H. unfold create_group_rows.
   set (id := next_batch s).
-  eapply (BInv_grow s _ [(id, 0)] [(id, user, bp)] H); try reflexivity.
+  eapply (BInv_grow s _ [(id, 0)] [(id, user, bp)] [(id, 0, 0, 0)] H); try reflexivity.
   - unfold gkl. cbn. rewrite map_app. reflexivity.
   - unfold bkl. cbn. rewrite map_app. reflexivity.
-  - intros b u p Hin. cbn. apply in_app_or in Hin. destruct Hin as [Hin | [E | []]].
-    + apply (si_fresh s (proj1 H)) in Hin. fold id in Hin. lia.
-    + injection E as <- _ _. lia.
-  - intros b g Hg Hb. apply (anc_ids_ext _ _ [(id, 0, 0, 0)]); [reflexivity|].
-    intros b' g' a' l' [E | []] [Hb' _]. injection E as <- _ _ _. subst b.
-    apply blook_in in Hb. destruct Hb as (u & p & Hin). apply (si_fresh s (proj1 H)) in Hin. fold id in Hin. lia.
+  - cbn. fold id. lia.
+  - intros b u p [E | []]. injection E as <- _ _. cbn. fold id. lia.
+  - intros b g [E | []]. injection E as <- <-. split; [|cbn; fold id; lia].
+    intros Hin. apply (gi_fresh s (si_g s (proj1 H))) in Hin. fold id in Hin. lia.
+  - intros b g a x [E | []]. injection E as <- <- <- _. split; [left; reflexivity | lia].
+  - intros b g _. unfold aids. cbn [filter]. destruct (_ && _); cbn [map]; repeat constructor; intros [].
 Qed.
 
 Lemma BInv_create_update s b user token nj ng : BInv s -> BInv (fst (do_create_update s b user token nj ng)).
@@ -67,46 +75,67 @@ Proof.
   intros H. unfold do_create_update. peel H; sv_done H.
 Qed.
 
-Lemma BInv_create_one_group b u sg s gs s' :
-  BInv s -> create_one_group b u sg (Some s) gs = Some s' -> BInv s'.
+Lemma aids_copied b g rows b0 g0 :
+  aids (map (fun r : Z * Z * Z * Z => let '(_, _, a, lvl) := r in (b, g, a, lvl + 1)) rows) b0 g0
+  = if (b =? b0) && (g =? g0) then map (fun r : Z * Z * Z * Z => let '(_, _, a, _) := r in a) rows else [].
 Proof.
-  intros H. unfold create_one_group. cbv zeta.
+  unfold aids. induction rows as [|[[[b' g'] a] l] rows IH]; cbn [map filter]; [destruct (_ && _); reflexivity|].
+  destruct ((b =? b0) && (g =? g0)); cbn [map]; rewrite IH; reflexivity.
+Qed.
+
+Lemma BInv_create_one_group b u sg s gs s' :
+  BInv s -> find_batch s b <> None -> create_one_group b u sg (Some s) gs = Some s' -> BInv s' /\ batches s' = batches s.
+Proof.
+  intros H Hbt. unfold create_one_group. cbv zeta.
   destruct (group_cancelled s b _); [discriminate|].
   set (g := sg + gs_id gs - 1). set (parent := match gs_parent_abs gs with Some p => p | None => sg + gs_parent_rel gs - 1 end).
   destruct (find_group s b g) eqn:Fg; [discriminate|].
-  destruct (negb (parent <? g)); [discriminate|]. destruct (_ <? _); [discriminate|].
-  intros E; injection E as <-. unfold create_group_rows. cbn [negb].
-  eapply (BInv_grow s _ [(b, g)] [] H); try reflexivity.
+  destruct (negb (parent <? g)) eqn:Epg; [discriminate|]. destruct (MAX_JOB_GROUPS_DEPTH <? _); [discriminate|].
+  intros E; injection E as <-. split; [|reflexivity]. unfold create_group_rows. cbn [negb].
+  pose proof (si_g s (proj1 H)) as G.
+  assert (Hnew : ~ In (b, g) (gkl s)) by (intros Hin; apply find_group_gkl in Hin; exact (Hin Fg)).
+  assert (Hb : b < next_batch s).
+  { apply find_batch_some_iff, blook_in in Hbt. destruct Hbt as (u0 & p0 & Hin). apply (si_fresh s (proj1 H) _ _ _ Hin). }
+  set (copied := map (fun r : Z * Z * Z * Z => let '(_, _, a, lvl) := r in (b, g, a, lvl + 1)) (anc_rows s b parent)).
+  eapply (BInv_grow s _ [(b, g)] [] (copied ++ [(b, g, g, 0)]) H); try reflexivity.
   - unfold gkl. cbn. rewrite map_app. reflexivity.
   - rewrite app_nil_r. reflexivity.
-  - rewrite app_nil_r. cbn. apply (si_fresh s (proj1 H)).
-  - intros b0 g0 Hg Hb.
-    eapply (anc_ids_ext _ _ (map (fun r => let '(_, _, a, lvl) := r in (b, g, a, lvl + 1)) (anc_rows s b parent) ++ [(b, g, g, 0)])); [reflexivity|].
-    intros b' g' a' l' Hin [E1 E2].
-    assert (b' = b /\ g' = g) as [E3 E4].
-    { apply in_app_or in Hin. destruct Hin as [Hin | [E | []]].
-      - apply in_map_iff in Hin. destruct Hin as ([[[? ?] ?] ?] & E & _). injection E as <- <- _ _. split; reflexivity.
-      - injection E as <- <- _ _. split; reflexivity. }
-    rewrite E1 in E3; rewrite E2 in E4; subst b0 g0.
-    apply find_group_gkl in Hg. rewrite E3, E4 in Hg. exact (Hg Fg).
+  - intros ? ? ? [].
+  - intros b0 g0 [E | []]. injection E as <- <-. split; [exact Hnew | cbn; exact Hb].
+  - intros b0 g0 a x Hin. apply in_app_or in Hin. destruct Hin as [Hin | [E | []]].
+    + unfold copied in Hin. apply in_map_iff in Hin. destruct Hin as ([[[b1 g1] a1] l1] & E & Hr). injection E as <- <- <- _.
+      split; [left; reflexivity|].
+      unfold anc_rows in Hr. apply filter_In in Hr. destruct Hr as [Hr Hk].
+      assert (b1 = b) by lia. assert (g1 = parent) by lia. subst b1 g1.
+      destruct (gi_ref s G _ _ _ _ Hr) as [_ Hle]. lia.
+    + injection E as <- <- <- _. split; [left; reflexivity | lia].
+  - intros b0 g0 [E | []]. injection E as <- <-. rewrite aids_app. unfold copied. rewrite aids_copied, !Z.eqb_refl. cbn [andb].
+    unfold aids. cbn [filter]. rewrite !Z.eqb_refl. cbn [andb map].
+    change (map (fun r : Z * Z * Z * Z => let '(_, _, a, _) := r in a) (anc_rows s b parent)) with (anc_ids s b parent).
+    apply NoDup_snoc; [apply (gi_nodup s G)|].
+    intros Hin. rewrite anc_ids_aids in Hin. apply in_aids in Hin. destruct Hin as (x & Hx).
+    destruct (gi_ref s G _ _ _ _ Hx) as [_ Hle]. lia.
 Qed.
 
 Lemma fold_create_one_group_none b u sg gss : fold_left (create_one_group b u sg) gss None = None.
 Proof. induction gss as [|g gss IH]; cbn [fold_left]; [reflexivity | exact IH]. Qed.
 
 Lemma BInv_fold_create_groups b u sg gss : forall s s',
-  BInv s -> fold_left (create_one_group b u sg) gss (Some s) = Some s' -> BInv s'.
+  BInv s -> find_batch s b <> None -> fold_left (create_one_group b u sg) gss (Some s) = Some s' -> BInv s'.
 Proof.
-  induction gss as [|g gss IH]; intros s s' H; cbn [fold_left].
+  induction gss as [|g gss IH]; intros s s' H Hb; cbn [fold_left].
   - intros E; injection E as <-; exact H.
   - destruct (create_one_group b u sg (Some s) g) as [s1|] eqn:E1.
-    + apply IH. eapply BInv_create_one_group; eassumption.
+    + destruct (BInv_create_one_group _ _ _ _ _ _ H Hb E1) as [H1 B1].
+      apply IH; [exact H1 | unfold find_batch; rewrite B1; exact Hb].
     + rewrite fold_create_one_group_none. discriminate.
 Qed.
 
 Lemma BInv_create_groups s b u user gss : BInv s -> BInv (fst (do_create_groups s b u user gss)).
 Proof.
-  intros H. unfold do_create_groups. peel H. eapply BInv_fold_create_groups; eassumption.
+  intros H. unfold do_create_groups. peel H.
+  eapply BInv_fold_create_groups; [exact H | | eassumption].
+  match goal with Hf : find_batch s b = Some _ |- _ => rewrite Hf end. discriminate.
 Qed.
 
 (* ------------------------------------------------------------------ create_jobs *)
